@@ -751,7 +751,13 @@ func (c *hctx) rangeStmt(v *ast.RangeStmt, k func() term) term {
 	}
 	key.pos = v.Pos()
 	lim := c.synthVar(&c.synthLim, v, "lim")
-	switch u := tv.Type.Underlying().(type) {
+	rangeT := tv.Type.Underlying()
+	if tp, isTp := types.Unalias(tv.Type).(*types.TypeParam); isTp {
+		if sl := coreSliceOf(tp); sl != nil {
+			rangeT = sl
+		}
+	}
+	switch u := rangeT.(type) {
 	case *types.Basic:
 		if u.Info()&types.IsInteger == 0 || v.Value != nil {
 			c.lostAt(v, "range over %s", src(v.X))
